@@ -170,6 +170,26 @@ func runScenario(c *corr.Ctx, sc *Scenario, name string, st *runStats) {
 		for _, n := range h.notes {
 			fmt.Fprintln(os.Stderr, "   note:", n)
 		}
+		if os.Getenv("PIPE_DEBUG") == "2" {
+			for _, rd := range h.readers {
+				got := map[int]bool{}
+				for _, rc := range rd.recs {
+					got[rc.wid] = true
+				}
+				fmt.Fprintf(os.Stderr, "   reader %d history:", rd.idx)
+				for j, w := range h.writes {
+					if w.fan[rd.idx] == 'a' {
+						p := h.pk[j]
+						mark := "+"
+						if !got[j] {
+							mark = "MISSING"
+						}
+						fmt.Fprintf(os.Stderr, " %d(m%d/%d seq %d)%s", j, p.media, p.pt, p.seq, mark)
+					}
+				}
+				fmt.Fprintln(os.Stderr)
+			}
+		}
 	}
 	if !sc.NoModel {
 		c.Add(h.buildCase(name))
